@@ -4,7 +4,8 @@ Copies a confirmed seeded change from /tmp/seed/<ID>.work/<n>/ to /verif/seeded/
 import json, os, shutil, sys, re
 ID, n, slug = sys.argv[1], sys.argv[2], sys.argv[3]
 result = " ".join(sys.argv[4:])
-src = "/tmp/seed/%s.work/%s" % (ID, n)
+ROOT = os.environ.get("SEED_ROOT", "/tmp/seed")
+src = "%s/%s.work/%s" % (ROOT, ID, n)
 dst = "/verif/seeded/%s-%s" % (ID, slug)
 os.makedirs(dst, exist_ok=True)
 shutil.copy(src + "/patch.diff", dst + "/patch.diff")
@@ -21,10 +22,10 @@ if m:
 files = re.findall(r"^\+\+\+ b/(\S+)", open(src + "/patch.diff").read(), re.M)
 meta = {"property": ID, "files_touched": files,
         "needs_to_manifest": needs or "see notes.md",
-        "origin": "fresh sub-agent given only the property text and a scratch worktree (/tmp/seed/%s); nothing from /verif" % ID,
+        "origin": "fresh sub-agent given only the property text and a scratch worktree (%s/%s); nothing from /verif" % (ROOT, ID),
         "confirmed": "tools/confirm_seeded.sh %s %s: existing suite (cargo test --workspace --no-fail-fast --offline) passes with the change, "
                      "demonstration fails with the change and passes without it" % (ID, n),
-        "demo_how": "the demo is a tiny cargo project with a path dependency on /tmp/seed/%s/palette: point it at a checkout with/without the patch and `cargo run --offline`" % ID,
+        "demo_how": "the demo is a tiny cargo project with a path dependency on %s/%s/palette: point it at a checkout with/without the patch and `cargo run --offline`" % (ROOT, ID),
         "checks_run": "tools/try_seeded.sh (scratch worktree with the patch applied, harness copy pointing at it): " + result}
 json.dump(meta, open(dst + "/meta.json", "w"), indent=1)
 print("kept", dst)
